@@ -59,6 +59,13 @@ inductive Ending
   | finished          -- the `while` condition became false
   | sleepValueError   -- `time.sleep` of a negative interval raises ValueError after the first DENM (thread dies)
   | nonTerminating    -- `denm_interval = 0` with `time_period > 0`: `transmission_time` never advances
+  | aborted (k : Nat) -- OLD code only: repetition `k` raised (coder / transport) and the thread died
+  deriving DecidableEq, Repr
+
+/-- what happens to repetition `k` of an event below the DEN service: nothing, the DENM cannot be built / encoded
+    (`denm_coder.encode` raises: nothing is handed over), or the transport layer raises while the DENM is handed over
+    (`btp_router.btp_data_request` raises: the hand-over was attempted) -/
+inductive Fault | ok | encode | transport
   deriving DecidableEq, Repr
 
 /-! ## The repetition loop -/
@@ -143,6 +150,47 @@ def runEvents (clk : Nat → Nat) : TM → List Ev → List (List (Nat × GbcReq
   | _, [] => []
   | tm, e :: rest => (runEv clk tm e).2 :: runEvents clk (runEv clk tm e).1 rest
 
+/-! ## Failing repetitions (fix C17-F3: a repetition that raises is logged and skipped, the schedule goes on) -/
+
+/-- repetition indices that reach the transport layer when the loop runs `n` repetitions and survives failures -/
+def attempts (fk : Nat → Fault) (n : Nat) : List Nat := (List.range n).filter (fun k => fk k != .encode)
+
+/-- index of the first failing repetition below `n`, if any -/
+def firstFault (fk : Nat → Fault) (n : Nat) : Option Nat := (List.range n).find? (fun k => fk k != .ok)
+
+/-- OLD loop (no `try` around the repetition): the thread dies at the first failing repetition `k0`; the
+    repetitions before it were handed over, `k0` itself only if it failed in the transport -/
+def attemptsAbort (fk : Nat → Fault) (n : Nat) : List Nat × Ending :=
+  match firstFault fk n with
+  | none => (List.range n, .finished)
+  | some k0 => (List.range (if fk k0 = .transport then k0 + 1 else k0), .aborted k0)
+
+/-- one event with interval `i > 0` under faults `fk` (repaired loop).  Log entries: offset, request, and whether
+    the transport accepted it (`true`) or raised (`false`). -/
+def runEventF (clk : Nat → Nat) (tm : TM) (start : Nat) (r : Request) (fk : Nat → Fault) :
+    TM × List (Nat × GbcReq × Bool) × Ending :=
+  let (seq, tm') := alloc tm
+  let i := r.interval.toNat
+  let n := ceilDiv r.period.toNat i
+  (tm', (attempts fk n).map (fun k => (k * i, mkReq (mkDenm tm.station seq r (clk (start + k * i))), fk k == .ok)),
+   .finished)
+
+/-- the same event on the OLD loop -/
+def runEventAbort (clk : Nat → Nat) (tm : TM) (start : Nat) (r : Request) (fk : Nat → Fault) :
+    TM × List (Nat × GbcReq × Bool) × Ending :=
+  let (seq, tm') := alloc tm
+  let i := r.interval.toNat
+  let n := ceilDiv r.period.toNat i
+  let (ks, e) := attemptsAbort fk n
+  (tm', ks.map (fun k => (k * i, mkReq (mkDenm tm.station seq r (clk (start + k * i))), fk k == .ok)), e)
+
+/-! ## Event position read by reference (OLD `request_denm_sending`; fix C17-F4 copies it at request time) -/
+
+/-- OLD: the request aliases the caller's position dictionary; repetition at absolute time `t` reads `posAt t` -/
+def runEventRef (clk : Nat → Nat) (tm : TM) (start : Nat) (i T : Int) (posAt : Nat → Pos) :
+    List (Nat × GbcReq) :=
+  (triggerOffsets i T).1.map (fun o => (o, mkReq (mkDenm tm.station tm.next ⟨i, T, posAt (start + o)⟩ (clk (start + o)))))
+
 /-- action id of an event's log (none when nothing was emitted) -/
 def eventAction (log : List (Nat × GbcReq)) : Option ActionId := log.head?.map (·.2.denm.action)
 
@@ -168,9 +216,24 @@ structure LdmEntry where
   obj : Denm
   deriving DecidableEq, Repr
 
-/-- `feed_ldm`: AddDataProviderReq with a circle of radius 0 at the DENM's event position -/
-def feedLdm (ldm : List LdmEntry) (d : Denm) (alt : Int) : List LdmEntry :=
-  ldm ++ [{ appId := 1, lat := d.pos.lat, lon := d.pos.lon, alt := alt, radius := 0, obj := d }]
+/-- the record `feed_ldm` builds: AddDataProviderReq with a circle of radius 0 at the DENM's event position -/
+def mkEntry (d : Denm) (alt : Int) : LdmEntry :=
+  { appId := 1, lat := d.pos.lat, lon := d.pos.lon, alt := alt, radius := 0, obj := d }
+
+/-- `feed_ldm` into an LDM whose maintenance does not run -/
+def feedLdm (ldm : List LdmEntry) (d : Denm) (alt : Int) : List LdmEntry := ldm ++ [mkEntry d alt]
+
+/-- `feed_ldm` into the LDM built by `LDMFactory` (reactive maintenance): `add_provider_data` inserts the record
+    and, when a collection is `due` (>= 1 s since the last one), runs `collect_trash`, which removes every record
+    the collection's deletion test `del` selects (time validity and area of maintenance; modelled in detail for C12,
+    abstract here) - the record just inserted included. -/
+def feedLdmM (del : LdmEntry → Bool) (due : Bool) (ldm : List LdmEntry) (d : Denm) (alt : Int) : List LdmEntry :=
+  if due then (ldm ++ [mkEntry d alt]).filter (fun e => !del e) else ldm ++ [mkEntry d alt]
+
+/-- SPEC (property text, independent of `feed_ldm`): the LDM holds DENM `d` as a DENM data object (application
+    id 1) located at `d`'s event position -/
+def StoredAt (ldm : List LdmEntry) (d : Denm) : Prop :=
+  ∃ e ∈ ldm, e.appId = 1 ∧ e.obj = d ∧ e.lat = d.pos.lat ∧ e.lon = d.pos.lon
 
 def receiveAll (ldm : List LdmEntry) (ds : List (Denm × Int)) : List LdmEntry :=
   ds.foldl (fun l (d, alt) => feedLdm l d alt) ldm
